@@ -79,6 +79,12 @@ static int POST_mlock(ghost_t o, fiber_mutex_t* m, int ret) {
   if (m == &CV.internal_mutex) return G.mode == LOCKED && G.holds_user == o.holds_user && cnt_eq(o, 1, 0, 0, 0, 0, 0);
   return G.mode == RESUMED && G.holds_user == 1 && cnt_eq(o, 0, 0, 1, 0, 0, 0);
 }
+/* trylock (C03's contract): either acquires like lock, or fails and changes nothing.  The unchanged code never calls it; a change that does is
+   judged by what it then does with the failure (a signal that gives up is a lost signal: POST_sig) */
+static int POST_mtrylock(ghost_t o, fiber_mutex_t* m, int ret) {
+  if (ret == FIBER_SUCCESS) return POST_mlock(o, m, ret);
+  return ret == FIBER_ERROR && inv_now() && G.owed == o.owed && G.mode == o.mode && G.holds_user == o.holds_user && cnt_eq(o, 0, 0, 0, 0, 0, 0);
+}
 /* the internal mutex is released when the claim/undo is complete and the owed wake issued, or after a broadcast that took 0 */
 static int PRE_munlock(fiber_mutex_t* m) {
   return m == &CV.internal_mutex && G.owed == 0 && (G.mode == RELEASED || (G.mode == LOCKED && G.obs == 1 && G.obs_val == 0));
@@ -98,6 +104,7 @@ int fiber_cond_broadcast(fiber_cond_t* cond) __CPROVER_requires(cond == &CV && P
 int fiber_cond_wait(fiber_cond_t* cond, fiber_mutex_t* mutex) __CPROVER_requires(cond == &CV && mutex == &UM && PRE_wait()) __CPROVER_ensures(POST_wait(__CPROVER_return_value)) ASG;
 fiber_manager_t* fiber_manager_get(void) __CPROVER_ensures(__CPROVER_return_value == &VM0) __CPROVER_assigns();
 int fiber_mutex_lock(fiber_mutex_t* mutex) __CPROVER_requires(PRE_mlock(mutex)) __CPROVER_ensures(POST_mlock(__CPROVER_old(G), mutex, __CPROVER_return_value)) ASG;
+int fiber_mutex_trylock(fiber_mutex_t* mutex) __CPROVER_requires(PRE_mlock(mutex)) __CPROVER_ensures(POST_mtrylock(__CPROVER_old(G), mutex, __CPROVER_return_value)) ASG;
 int fiber_mutex_unlock(fiber_mutex_t* mutex) __CPROVER_requires(PRE_munlock(mutex)) __CPROVER_ensures(POST_munlock(__CPROVER_old(G), __CPROVER_return_value)) ASG;
 int fiber_manager_wake_from_mpsc_queue(fiber_manager_t* manager, mpsc_fifo_t* fifo, int count)
   __CPROVER_requires(PRE_wake(manager, fifo, count)) __CPROVER_ensures(POST_wake(__CPROVER_old(G), count, __CPROVER_return_value)) ASG;
@@ -110,6 +117,12 @@ int fiber_mutex_lock(fiber_mutex_t* mutex) {
   ghost_t o = G;
   if (mutex == &CV.internal_mutex) { G.mode = LOCKED; G.imx_locks += 1; } else { G.holds_user = 1; G.user_locks += 1; }
   havoc_env(); spec_snap(); VASSUME(POST_mlock(o, mutex, FIBER_SUCCESS)); return FIBER_SUCCESS;
+}
+int fiber_mutex_trylock(fiber_mutex_t* mutex) {
+  VASSERT(PRE_mlock(mutex), "C: trylock the internal mutex when idle / the caller's mutex after resuming");
+  ghost_t o = G; int ok = verif_bool();
+  if (ok) { if (mutex == &CV.internal_mutex) { G.mode = LOCKED; G.imx_locks += 1; } else { G.holds_user = 1; G.user_locks += 1; } }
+  havoc_env(); spec_snap(); VASSUME(POST_mtrylock(o, mutex, ok ? FIBER_SUCCESS : FIBER_ERROR)); return ok ? FIBER_SUCCESS : FIBER_ERROR;
 }
 int fiber_mutex_unlock(fiber_mutex_t* mutex) {
   VASSERT(PRE_munlock(mutex), "C: release the internal mutex only after the claim/undo is complete and the owed wake was issued");
